@@ -45,3 +45,93 @@ def check_C03(ctx):
     ctx.coverage["samples"] = sample_of(scens)
     ctx.coverage["evaluations"] = ctx.coverage["correspondence"]["cases"]
     ctx.coverage["distinct_nontrivial"] = len({s.text() for s in scens})
+
+
+KILL_POINTS = ["before_setup", "after_setup", "after_body", "after_teardown", "after_tally", "before_write", "after_write",
+               "after_completion", "at_exit"]
+KILL_HOWS = ["11", "9", "6", "15", "13", "exit", "_exit"]
+
+
+def oracle_C02(scen, m, o, reporter):
+    """The dying test is one exception, what it delivered is counted, the verdict is failure, the others
+    are reported as their own truth says (= as when the dying test is absent)."""
+    e = oracle_C03(scen, m, o, reporter)
+    if e:
+        return e
+    if m.truth[3] > 0 and status_of(o) != "1":
+        return f"a test ended abnormally (truth {m.truth}) but the verdict is {status_of(o)}"
+    return None
+
+
+def c02_facts(scen, m):
+    f = facts_of(scen, m)
+    if scen.kill:
+        f["kill_point"] = scen.kill[0]
+        f["kill_how"] = scen.kill[2]
+        f["late_abort"] = scen.kill[0] in ("after_completion", "at_exit") and scen.kill[2] == "6"
+    return f
+
+
+def check_C02(ctx):
+    runner_lean(ctx)
+    rng = random.Random(ctx.seed * 1000 + 2)
+    bench = Bench(ctx)
+    scens = []
+    # systematic: every kill point x every way of dying x position of the dying test x history class
+    histories = {
+        "plain": lambda: [T("h1", body=["P", "F"]), T("h2", body=["P"])],
+        "skipping": lambda: [T("h1", body=["S", "P"]), T("h2", x=1, body=["P"])],
+        "dying": lambda: [T("h1", body=["P", "K11"]), T("h2", body=["F", "E"])],
+    }
+    victims = [lambda: T("v", ctx=1, body=["P", "F", "MF", "P"], setup=["P"], teardown=["F"]),
+               lambda: T("v", body=["F"]), lambda: T("v", body=[])]
+    n = 0
+    for point in KILL_POINTS:
+        for how in KILL_HOWS:
+            for hname, h in histories.items():
+                n += 1
+                if ctx.tier == "quick" and (n + ctx.seed) % 3 != 0:
+                    continue
+                v = victims[n % len(victims)]()
+                occs = [1] if point not in ("before_write", "after_write") else [1, 2, 5, 6, 7]
+                for occ in occs:
+                    pos = n % 3
+                    items = h()
+                    post = [T("p1", body=["P", "F"]), T("p2", body=["MP"])]
+                    tests = items[:pos] + [v] + items[pos:] + post
+                    root = S("top", items=[S("inner", su=n % 2, td=(n // 2) % 2, items=tests[:3]), *tests[3:]])
+                    scens.append(Scen(root, kill=(point, occ, how, "v")))
+    # random: die acts anywhere in random trees
+    for _ in range(sizes(ctx, 150, 3000)):
+        scens.append(Scen(gen_tree(rng, max_tests=8)))
+    reporters = ["text", "cute"]
+    dis, orf = explore(ctx, bench, scens, reporters, oracle_C02, "C02")
+    global facts_of_saved
+    report(ctx, bench, dis, orf, oracle_C02, "C02", facts_fn=c02_facts)
+    # differential: the same run without the dying test gives the other tests the same results
+    sub = [s for s in scens if s.kill][: sizes(ctx, 40, 400)]
+    without = []
+    for s in sub:
+        c = s.copy(); c.kill = None
+        for su in c.root.suites():
+            su.items = [i for i in su.items if not (isinstance(i, T) and i.name == "v")]
+        without.append(c)
+    a = bench.run_many([(s.text(), "text") for s in sub])
+    b = bench.run_many([(s.text(), "text") for s in without])
+    bad = 0
+    for s, oa, ob in zip(sub, a, b):
+        pa = observed_per_test(oa, "text", s); pb = observed_per_test(ob, "text", s)
+        for path in pb:
+            if path.endswith("/v"):
+                continue
+            if pa.get(path) != pb.get(path):
+                bad += 1
+                ctx.violation(f"[C02] test {path} is reported differently when test v dies ({s.kill}) than when v is absent: {pa.get(path)} vs {pb.get(path)}",
+                              s.text(), found_input=True, facts=c02_facts(s, None) if False else {"kill_point": s.kill[0]})
+                break
+    ctx.coverage["differential_pairs"] = len(sub)
+    ctx.coverage["samples"] = sample_of(scens)
+    ctx.coverage["evaluations"] = ctx.coverage["correspondence"]["cases"] + 2 * len(sub)
+    ctx.coverage["distinct_nontrivial"] = len({s.text() for s in scens})
+    ctx.coverage["kill_points"] = KILL_POINTS
+    ctx.coverage["ways_of_dying"] = KILL_HOWS
